@@ -48,7 +48,23 @@ func genC15(r *Rng, e *Emitter, n int) {
 		c, d := pt(), pt()
 		// the values are moved into long-lived buffers that the next case overwrites
 		defer0 := func() { a, b, c, d = slot(0, a...), slot(1, b...), slot(2, c...), slot(3, d...) }
-		switch r.Intn(10) {
+		switch r.Intn(11) {
+		case 10:
+			// two short segments (centimetres to decimetres) that cross one another, millions of units
+			// from the origin, ordinates to four decimal places: the distance is zero
+			if dim == 2 {
+				cx0, cy0 := float64(1000000+r.Intn(9000000))+float64(r.Intn(10000))/1e4, float64(1000000+r.Intn(9000000))+float64(r.Intn(10000))/1e4
+				an1 := r.Float64() * math.Pi
+				an2 := an1 + 0.3 + r.Float64()*2.4
+				rd := func(v float64) float64 { return math.Round(v*1e4) / 1e4 }
+				half := func() float64 { return 0.01 + r.Float64()*0.2 }
+				h1, h2, h3, h4 := half(), half(), half(), half()
+				a[0], a[1] = rd(cx0+h1*math.Cos(an1)), rd(cy0+h1*math.Sin(an1))
+				b[0], b[1] = rd(cx0-h2*math.Cos(an1)), rd(cy0-h2*math.Sin(an1))
+				c[0], c[1] = rd(cx0+h3*math.Cos(an2)), rd(cy0+h3*math.Sin(an2))
+				d[0], d[1] = rd(cx0-h4*math.Cos(an2)), rd(cy0-h4*math.Sin(an2))
+				e.tally("short-crossing-far-from-origin")
+			}
 		case 9:
 			// a short segment seen from far away (its length a 10^-7 … 10^-12 part of the distance): the
 			// nearer of its ends, or the foot between them, is still what counts
